@@ -118,8 +118,8 @@ def hist_diff(a, b):
 # ---- configuration strategy ------------------------------------------------------------------------------------------
 @st.composite
 def config(draw, kinds=gen.CHEAP, max_d=4, max_len=6, max_bs=4, losses=("minkowski", "msm", "fourier", "gsl", "likelihood"),
-           model_kinds=("gauss", "ar1", "poly"), max_e=3, rl=False):
-    sp = draw(gen.space_spec(max_d=max_d, max_m=60))
+           model_kinds=("gauss", "ar1", "poly"), max_e=3, rl=False, wide=False):
+    sp = draw(gen.space_spec(max_d=max_d, max_m=60, wide=wide))
     d_out = draw(st.integers(1, 3))
     loss_kind = draw(st.sampled_from(list(losses)))
     n = draw(st.integers(8, 20))
